@@ -498,7 +498,7 @@ RECIPES["C14"] = {
 
 RECIPES["C14"]["jobs"] = [
     {"name": "tok", "src": ["C14_tok.c"] + CONFIG_TU, "gen": _gen_shim.gen,
-     "splits": {"quick": [{"VP_LEN": n} for n in (1, 2, 3, 4, 5)], "thorough": [{"VP_LEN": n} for n in range(1, 8)]},
+     "splits": {"quick": [{"VP_LEN": n} for n in (1, 2, 3, 4)], "thorough": [{"VP_LEN": n} for n in range(1, 8)]},
      "unwind": "VP_LEN + 3", "unwindset": ["ctype_init.0:31", "ctype_init.1:17", "harness.0:12", "harness.1:12", "harness.2:12"],
      "fp_restrict": FP_CONFIG, "timeout": 900},
 ]
@@ -542,7 +542,7 @@ FP_LOG = dict(FP_CONFIG)
 FP_LOG.update({
     "log_vmessage.function_pointer_call.1": ["rec_log"], "log_vmessage.function_pointer_call.2": ["rec_log"],
     "log_destination_cleanup.function_pointer_call.1": ["rec_close"],
-    "log_destination_open.function_pointer_call.1": ["rec_open"],
+    "log_destination_open.function_pointer_call.1": ["rec_open_A", "rec_open_B", "rec_open_C"],
     "log_reopen.function_pointer_call.1": ["rec_reopen"],
 })
 
@@ -560,7 +560,23 @@ def _log_pairs(thorough):
 RECIPES["C18"] = {
     "units": ["src/log.c", "src/config.c", "src/set.c", "src/common.c"],
     "jobs": [
-        {"name": "route", "src": ["C18_route.c"] + CONFIG_TU, "gen": _gen_shim.gen,
+        {"name": "fanout", "src": ["C18_fanout.c"] + CONFIG_TU, "gen": _gen_shim.gen,
+         "defs": {"all": {"VP_HAVE_LOG": None}},
+         "splits": {"all": [{}, {"VERBOSE1": None}]},
+         "unwind": 12, "unwindset": CONFIG_UW + ["strcmp.0:24", "strcasecmp.0:8", "strlen.0:24", "strcpy.0:24", "memcpy.0:40",
+                                                 "vpm_num.0:12", "vpm_num.1:12", "vpm_num.2:12", "vpm_num.3:12", "log_vmessage.0:5", "log_vmessage.1:5", "strchr.0:24"],
+         "fp_restrict": FP_LOG, "timeout": 900},
+        # not run: a symbolic severity name makes the xstrdup() inside log_parse_type_sevset an
+        # allocation of symbolic size; no layout finished inside 10 min / 20 GB (kept for reference)
+        {"name": "sevset", "tiers": [], "src": ["C18_sevset.c"] + CONFIG_TU, "gen": _gen_shim.gen,
+         "defs": {"all": {"VP_HAVE_LOG": None}},
+         "splits": {"all": [{"_name": "e%02d" % i, "VP_EXPR": '"%s"' % e} for i, e in enumerate(
+             ["N", "=M", ">=N", ">M", "<=N", "<M", "N,M", ">N,<=M", "*", "N,", "<=M,=N,>N", "N;M", "!N"])]},
+         "unwind": 40, "unwindset": CONFIG_UW + ["strcmp.0:24", "strcasecmp.0:12", "strlen.0:40", "strcpy.0:40", "strchr.0:40",
+                                                 "log_parse_type_sevset.0:8", "log_parse_type_sevset.1:8", "log_parse_type_sevset.2:8",
+                                                 "log_parse_type_sevset.3:8", "log_parse_type_sevset.4:8"],
+         "fp_restrict": FP_LOG, "timeout": 600},
+        {"name": "route", "tiers": [], "src": ["C18_route.c"] + CONFIG_TU, "gen": _gen_shim.gen,
          "defs": {"all": {"VP_HAVE_LOG": None}},
          "splits": {"quick": _log_pairs(False), "thorough": _log_pairs(True)},
          "unwind": 24, "unwindset": CONFIG_UW + ["strcmp.0:24", "strcasecmp.0:24", "strlen.0:24", "strcpy.0:24", "strchr.0:24", "memcpy.0:40",
